@@ -111,6 +111,11 @@ class ExprGen:
         self.free_shared_unions = ch.chance("e.free_shared_unions", 1, 3)
         self.union_on_sets: Dict[Tuple[str, str], List[str]] = {}
         self.union_used_in_op: set = set()
+        # a built selection kept in a variable and placed at two positions of one operation (only sub-trees without any
+        # argument and without shared union attributes: with arguments this is D10, a probe)
+        self.sharable: List[dict] = []
+        self.in_progress: List[int] = []
+        self.sid = 0
 
     def value_for(self, t, depth=0):
         """A value spec for GraphQL input type t: ("int", 3) / ("enum", "Color", "RED") / ("input", "Name", {...}) / ("list", [...])."""
@@ -224,6 +229,11 @@ class ExprGen:
             e["alias"] = "%s%d" % (ch.pick("e.aliasn", ["al", "renamed_", "Xy"]), self.counter)
         return e
 
+    def _arg_free(self, e) -> bool:
+        if e["args"] or e["how"] == "uattr" or (e["how"] == "attr" and e["alias"]):
+            return False
+        return all(self._arg_free(x) for x in e["sub"]) and all(self._arg_free(x) for xs in e["on"].values() for x in xs)
+
     def selection(self, t, depth, leaf_only=False) -> List[dict]:
         ch = self.ch
         out = []
@@ -242,11 +252,27 @@ class ExprGen:
                         self.counter += 1
                         e["alias"] = None if r == 0 else "dup%d" % self.counter
                     out.append(e)
+                    if e["how"] == "method" and (e["sub"] or e["on"]) and not e.get("root") and self._arg_free(e):
+                        e.setdefault("made_in", t.name)
+                        self.sharable.append(e)
+        # the very same built object again, in another selection set
+        if not leaf_only and self.sharable and ch.chance("e.share_subtree", 1, 3):
+            cands = [n for n in self.sharable if n["made_in"] == t.name and id(n) not in [id(x) for x in out]
+                     and all(x["gql"] != n["gql"] or (x["alias"] or x["gql"]) != (n["alias"] or n["gql"]) for x in out)
+                     and all((x["alias"] or x["gql"]) != (n["alias"] or n["gql"]) for x in out)]
+            if cands:
+                n = cands[ch.draw("e.share_which", len(cands))]
+                if n.get("sid") is None:
+                    self.sid += 1
+                    n["sid"] = self.sid
+                import copy as _copy
+                out.append(_copy.deepcopy(n))
         return out
 
     def operation(self, kind: str, i: int) -> Optional[dict]:
         ch = self.ch
         self.union_used_in_op = set()
+        self.sharable = []
         root = self.schema.query_type if kind == "query" else self.schema.mutation_type
         if root is None:
             return None
@@ -327,8 +353,17 @@ def container_class(pkg, type_name: str, schema):
     raise Unresolvable("class for %s" % type_name)
 
 
-def interpret(e: dict, pkg, schema, snake: bool, root_kind: Optional[str] = None):
-    """Build the live builder object for expression node e."""
+def interpret(e: dict, pkg, schema, snake: bool, root_kind: Optional[str] = None, shared: Optional[dict] = None):
+    """Build the live builder object for expression node e.  Nodes carrying the same "sid" are one object."""
+    if shared is not None and e.get("sid") is not None and e["sid"] in shared:
+        return shared[e["sid"]]
+    obj = _interpret(e, pkg, schema, snake, root_kind, shared)
+    if shared is not None and e.get("sid") is not None:
+        shared[e["sid"]] = obj
+    return obj
+
+
+def _interpret(e: dict, pkg, schema, snake: bool, root_kind: Optional[str] = None, shared: Optional[dict] = None):
     if root_kind:
         holder = getattr(sub(pkg, "custom_queries" if root_kind == "query" else "custom_mutations"),
                          "Query" if root_kind == "query" else "Mutation")
@@ -381,9 +416,9 @@ def interpret(e: dict, pkg, schema, snake: bool, root_kind: Optional[str] = None
     if e["alias"]:
         obj = obj.alias(e["alias"])
     if e["sub"]:
-        obj = obj.fields(*[interpret(s, pkg, schema, snake) for s in e["sub"]])
+        obj = obj.fields(*[interpret(s, pkg, schema, snake, shared=shared) for s in e["sub"]])
     for tn, subs in e["on"].items():
-        obj = obj.on(tn, *[interpret(s, pkg, schema, snake) for s in subs])
+        obj = obj.on(tn, *[interpret(s, pkg, schema, snake, shared=shared) for s in subs])
     return obj
 
 
@@ -551,8 +586,16 @@ def run_case(case, ch: Choices) -> RunResult:
     aliases: List[str] = []
     try:
         root = os.path.join(base, "p")
-        mat = worlds.materialize(world, root)
-        r0 = genrun.run_child(root, mat["argv"], mat["targets"])
+        # the builder is generated from the schema object, however that was obtained: a third of the worlds reach the
+        # generator through the simulated introspection endpoint (arguments then carry no SDL AST node)
+        via_introspection = ch.chance("w.via_introspection", 1, 3)
+        if via_introspection:
+            mat = worlds.materialize(world, root, remote_url="http://schema.test/graphql")
+            r0 = genrun.run_child(root, mat["argv"], mat["targets"], http={"sdl": worlds.sdl_of(world), "fault": None, "content_type": "application/json"})
+            res.bump("world.schema_via_introspection")
+        else:
+            mat = worlds.materialize(world, root)
+            r0 = genrun.run_child(root, mat["argv"], mat["targets"])
         if r0.get("harness_failure"):
             raise RuntimeError("child failed: %s" % r0.get("child_stderr"))
         if r0.get("exit") != 0 or r0.get("timeout"):
@@ -597,8 +640,9 @@ def run_case(case, ch: Choices) -> RunResult:
             return cls(url="http://gql.test/graphql", http_client=httpx.Client(transport=SyncSimTransport(srv)))
 
         def send(client, op, pkg, prebuilt=None):
+            shared_objs: dict = {}
             fields = prebuilt if prebuilt is not None else \
-                [interpret(e, pkg, schema, snake, root_kind=op["kind"]) for e in op["fields"]]   # harness + builder API
+                [interpret(e, pkg, schema, snake, root_kind=op["kind"], shared=shared_objs) for e in op["fields"]]   # harness + builder API
             last_built[0] = fields
             n0 = len(captured)
             meth = getattr(client, op["kind"])
@@ -713,6 +757,8 @@ def run_case(case, ch: Choices) -> RunResult:
                 res.bump("probe.inline_fragments")
             if _max_arg_depth(op) >= 3:
                 res.bump("probe.argument_at_depth_3plus")
+            if any(e.get("sid") is not None for e in _all_nodes(op)):
+                res.bump("probe.one_built_subtree_at_two_positions")
             # ---- fresh-copy differential, after every operation the reference model accepted: the same expression is
             # interpreted on a freshly imported copy of the generated modules (no earlier operation touched its objects);
             # the text and the variables sent must be identical (this also covers what the reference model leaves free:
